@@ -885,11 +885,16 @@ type SeekOp struct {
 
 type SeekCase struct {
 	Content []byte
+	Modes   []fr.BodyMode // behaviour of the i-th blob body (cycled)
 	Ops     []SeekOp
 }
 
 func (s *SeekCase) Line() string {
-	w := []string{"S", common.Hex(string(s.Content)), strconv.Itoa(len(s.Ops))}
+	w := []string{"S", common.Hex(string(s.Content)), strconv.Itoa(len(s.Modes))}
+	for _, m := range s.Modes {
+		w = append(w, strconv.Itoa(m.Chunk), bit(m.EOFWithData))
+	}
+	w = append(w, strconv.Itoa(len(s.Ops)))
 	for _, o := range s.Ops {
 		switch o.K {
 		case "r":
@@ -905,22 +910,41 @@ func (s *SeekCase) Line() string {
 
 func ParseSeek(line string) (*SeekCase, error) {
 	t := strings.Fields(line)
-	if len(t) < 3 || t[0] != "S" {
+	if len(t) < 4 || t[0] != "S" {
 		return nil, errors.New("not a seek case")
 	}
 	s := &SeekCase{Content: []byte(common.UnHex(t[1]))}
-	n, _ := strconv.Atoi(t[2])
+	nm, _ := strconv.Atoi(t[2])
 	i := 3
+	for ; nm > 0; nm-- {
+		if i+1 >= len(t) {
+			return nil, errors.New("short")
+		}
+		c, _ := strconv.Atoi(t[i])
+		s.Modes = append(s.Modes, fr.BodyMode{Chunk: c, EOFWithData: t[i+1] == "1"})
+		i += 2
+	}
+	if i >= len(t) {
+		return nil, errors.New("short")
+	}
+	n, _ := strconv.Atoi(t[i])
+	i++
 	for ; n > 0; n-- {
 		if i >= len(t) {
 			return nil, errors.New("short")
 		}
 		switch t[i] {
 		case "r":
+			if i+1 >= len(t) {
+				return nil, errors.New("short")
+			}
 			v, _ := strconv.ParseInt(t[i+1], 10, 64)
 			s.Ops = append(s.Ops, SeekOp{K: "r", N: v})
 			i += 2
 		case "s":
+			if i+2 >= len(t) {
+				return nil, errors.New("short")
+			}
 			v, _ := strconv.ParseInt(t[i+1], 10, 64)
 			w, _ := strconv.Atoi(t[i+2])
 			s.Ops = append(s.Ops, SeekOp{K: "s", N: v, W: w})
@@ -933,6 +957,9 @@ func ParseSeek(line string) (*SeekCase, error) {
 	return s, nil
 }
 
+// execSeek runs a Read/Seek script on the reader Fetch returns from a range-capable registry.
+// Every "r n" is ONE Read call with a buffer of n bytes.  The oracle is independent of how the
+// bodies chunk their bytes: it tracks the position an io.ReadSeeker over the content must have.
 func execSeek(id string, s *SeekCase) {
 	line := s.Line()
 	c := &Case{Main: "app/blobs", Other: "lib/src", Prof: fr.Profile{DigHdr: true, Range: true, CLen: true}}
@@ -942,6 +969,10 @@ func execSeek(id string, s *SeekCase) {
 	d := fr.Desc{MT: mtLayer, DG: sha(s.Content), SZ: int64(len(s.Content))}
 	if err := repo.Push(ctx, od(d), bytes.NewReader(s.Content)); err != nil {
 		panic(err)
+	}
+	g.BlobModes = s.Modes
+	if len(g.BlobModes) == 0 {
+		g.BlobModes = []fr.BodyMode{{}}
 	}
 	rc, err := repo.Fetch(ctx, od(d))
 	if err != nil {
@@ -953,44 +984,85 @@ func execSeek(id string, s *SeekCase) {
 		run.Case(id, line, "noseeker")
 		return
 	}
-	ref := bytes.NewReader(s.Content)
+	size := int64(len(s.Content))
+	pos := int64(0) // where an io.ReadSeeker over the content is
 	var parts []string
 	closed := false
 	for i, o := range s.Ops {
 		first := len(g.Log)
-		var out, want string
+		var out string
+		mayReconnect := false // only a Seek that moves the position inside the blob may
+		fail := func(sig, msg string) {
+			run.OracleFail(id, sig, fmt.Sprintf("step %d (%v): %s", i, o, msg), replayOf(line))
+		}
 		switch o.K {
 		case "r":
 			buf := make([]byte, o.N)
-			n, err := io.ReadFull(rs, buf)
-			if n == 0 && err != nil && err != io.EOF && err != io.ErrUnexpectedEOF {
+			n, err := rs.Read(buf)
+			switch {
+			case err != nil && err != io.EOF:
 				out = "err"
-			} else {
-				out = "bytes:" + common.Hex(string(buf[:n]))
-			}
-			buf2 := make([]byte, o.N)
-			n2, _ := io.ReadFull(ref, buf2)
-			want = "bytes:" + common.Hex(string(buf2[:n2]))
-			if closed {
-				want = "err"
+				if !closed {
+					fail("seek", "Read failed: "+err.Error())
+				}
+			default:
+				got := buf[:n]
+				out = "data:" + common.Hex(string(got)) + ":more"
+				if err == io.EOF {
+					out = "data:" + common.Hex(string(got)) + ":eof"
+					run.Count("seek:read-eof-" + map[bool]string{true: "with-data", false: "alone"}[n > 0])
+				}
+				if closed {
+					fail("seek", "Read on a closed reader returned "+out)
+					break
+				}
+				end := pos + int64(n)
+				if pos > size {
+					end = pos
+				}
+				if (pos <= size && (end > size || !bytes.Equal(got, s.Content[pos:end]))) || (pos > size && n > 0) {
+					fail("seek", fmt.Sprintf("Read at position %d returned %x, the content there is %x", pos, got, s.Content[min64(pos, size):min64(pos+int64(n), size)]))
+				}
+				if err == io.EOF && pos+int64(n) < size {
+					fail("seek", fmt.Sprintf("EOF at position %d of %d", pos+int64(n), size))
+				}
+				if n == 0 && err == nil && o.N > 0 && pos < size {
+					fail("seek", "Read returned no bytes and no error before the end")
+				}
+				pos += int64(n)
 			}
 		case "s":
 			p, err := rs.Seek(o.N, o.W)
+			want := o.N
+			switch o.W {
+			case io.SeekCurrent:
+				want += pos
+			case io.SeekEnd:
+				want += size
+			}
 			if err != nil {
 				out = "err"
+				if want >= 0 && !closed {
+					fail("seek", fmt.Sprintf("Seek to %d failed: %v", want, err))
+				}
 			} else {
 				out = "pos:" + strconv.FormatInt(p, 10)
-			}
-			p2, err2 := ref.Seek(o.N, o.W)
-			if err2 != nil || closed {
-				want = "err"
-			} else {
-				want = "pos:" + strconv.FormatInt(p2, 10)
+				if closed || want < 0 {
+					fail("seek", "Seek succeeded: "+out)
+				} else if p != want {
+					fail("seek", fmt.Sprintf("Seek returned %d, an io.Seeker at position %d returns %d", p, pos, want))
+				} else {
+					if want == pos {
+						run.Count("seek:position-unchanged")
+					}
+					mayReconnect = want != pos && want < size
+					pos = want
+				}
 			}
 		default:
 			rc.Close()
 			closed = true
-			out, want = "closed", "closed"
+			out = "closed"
 		}
 		var rq []string
 		for k := first; k < len(g.Log); k++ {
@@ -998,17 +1070,18 @@ func execSeek(id string, s *SeekCase) {
 			if ex.Bad != "" {
 				run.OracleFail(id, "request-not-allowed", ex.Bad, replayOf(line))
 			}
+			if !mayReconnect {
+				run.OracleFail(id, "seek-range", fmt.Sprintf("step %d (%v): a request (%s) although the position does not move inside the blob", i, o, fr.ShowReq(ex.Q)), replayOf(line))
+			}
 			if ex.Q.Range != nil {
 				rq = append(rq, fmt.Sprintf("%d-%d", ex.Q.Range[0], ex.Q.Range[1]))
 				if ex.Q.Range[1] != d.SZ-1 || ex.Q.Range[0] >= d.SZ {
 					run.OracleFail(id, "seek-range", fmt.Sprintf("step %d: Range %d-%d on a blob of %d bytes", i, ex.Q.Range[0], ex.Q.Range[1], d.SZ), replayOf(line))
 				}
+				run.Count("seek:reconnect")
 			} else {
 				rq = append(rq, "norange")
 			}
-		}
-		if out != want {
-			run.OracleFail(id, "seek", fmt.Sprintf("step %d (%v): got %s, bytes.Reader gives %s", i, o, out, want), replayOf(line))
 		}
 		r := "-"
 		if len(rq) > 0 {
@@ -1019,6 +1092,13 @@ func execSeek(id string, s *SeekCase) {
 	}
 	run.Nontrivial(line)
 	run.Case(id, line, strings.Join(parts, " | "))
+}
+
+func min64(a, b int64) int64 {
+	if a < b {
+		return a
+	}
+	return b
 }
 
 // ---------- request grammar: formal `allowed` vs the endpoint table ----------
@@ -1703,18 +1783,59 @@ var corruptFields = []string{"dig-other", "dig-garbage", "dig-drop", "len-inc", 
 func genSeek(r *common.Rand) *SeekCase {
 	n := r.Intn(40)
 	if r.Chance(1, 10) {
-		n = 1
+		n = 0
 	}
 	s := &SeekCase{Content: make([]byte, n+1)}
 	for i := range s.Content {
 		s.Content[i] = byte(r.Intn(256))
 	}
 	size := int64(len(s.Content))
-	for k := 2 + r.Intn(10); k > 0; k-- {
-		switch x := r.Intn(10); {
-		case x < 4:
-			s.Ops = append(s.Ops, SeekOp{K: "r", N: int64(1 + r.Intn(int(size)+3))})
-		case x < 9:
+	// body behaviours: separate EOF, data with EOF, short reads, both; one per body, cycled
+	for k := 1 + r.Intn(3); k > 0; k-- {
+		m := fr.BodyMode{EOFWithData: r.Bool()}
+		if r.Bool() {
+			m.Chunk = 1 + r.Intn(7)
+		}
+		s.Modes = append(s.Modes, m)
+	}
+	read := func(n int64) { s.Ops = append(s.Ops, SeekOp{K: "r", N: n}) }
+	seek := func(off int64, w int) { s.Ops = append(s.Ops, SeekOp{K: "s", N: off, W: w}) }
+	readToEnd := func() {
+		// enough Read calls to pass the end whatever the chunking; the last ones see EOF
+		for k := 0; k < int(size)+2; k++ {
+			read(int64(1 + r.Intn(int(size)+3)))
+			if r.Chance(1, 4) {
+				break
+			}
+		}
+	}
+	for k := 2 + r.Intn(6); k > 0; k-- {
+		switch x := r.Intn(16); {
+		case x < 3:
+			read(int64(1 + r.Intn(int(size)+3)))
+		case x < 5: // read to the very end, then look where we are and go back
+			read(size + int64(r.Intn(3)))
+			readToEnd()
+			switch r.Intn(5) {
+			case 0:
+				seek(0, 1)
+			case 1:
+				seek(-int64(1+r.Intn(int(size))), 1)
+			case 2:
+				seek(-int64(r.Intn(int(size)+1)), 2)
+			case 3:
+				seek(int64(r.Intn(int(size)+1)), 0)
+			default:
+				seek(size, 0) // the position we are at: no reconnect
+			}
+			read(int64(1 + r.Intn(int(size)+2)))
+		case x < 7: // stay where we are (no reconnect), by all three whence values
+			seek(0, 1)
+			if r.Bool() {
+				read(int64(1 + r.Intn(4)))
+				seek(0, 1)
+			}
+		case x < 12:
 			w := r.Intn(3)
 			var off int64
 			switch w {
@@ -1725,12 +1846,23 @@ func genSeek(r *common.Rand) *SeekCase {
 			default:
 				off = -int64(r.Intn(int(size)+3)) + 1
 			}
-			s.Ops = append(s.Ops, SeekOp{K: "s", N: off, W: w})
+			seek(off, w)
+		case x < 14: // seek, read a little, seek back to an earlier offset, read again
+			a := int64(r.Intn(int(size) + 1))
+			seek(a, 0)
+			read(int64(1 + r.Intn(5)))
+			seek(a, 0)
+			read(int64(1 + r.Intn(int(size)+2)))
 		default:
 			if r.Chance(1, 3) {
 				s.Ops = append(s.Ops, SeekOp{K: "c"})
+			} else {
+				readToEnd()
 			}
 		}
+	}
+	if len(s.Ops) > 60 {
+		s.Ops = s.Ops[:60]
 	}
 	return s
 }
